@@ -19,7 +19,7 @@ MANIFEST = {
                   "is explored (search), not proved.",
 }
 
-HANDLED = ("O",)   # case kinds the model driver recomputes
+HANDLED = ("O", "H")   # case kinds the model driver recomputes
 
 
 def build(ctx):
@@ -107,7 +107,12 @@ def run(ctx):
                       "model/implementation disagree on %d cases" % len(mism), no_input=True)
     ctx.proof_violation_if_broken(pr, "c05 search: %d evaluations, no failing input" % ctx.notes.get("search_evaluations", 0))
     ctx.cov["rule"] = ("corr O: %d random (tfhd, trun flag word, first-sample-flags, 0-6 samples from small pools, trex or none) through "
-                       "OptimizeTfhdTrun, the real tfhd/trun codecs and AddSampleDefaultValues; distinct = distinct case lines; "
+                       "OptimizeTfhdTrun, the real tfhd/trun codecs and AddSampleDefaultValues; corr H: one case per fragment of as many random "
+                       "segments (a third of them outside the documented use: mixed data modes, single-track calls on multi-track "
+                       "fragments, unknown track ids, inconsistent sizes/decode times): op outcome classes, write-order numbers, tfdt, "
+                       "mdat bookkeeping, tfhd/trun flags and defaults after optimisation, every data offset, moof/mdat-header/encoded sizes, "
+                       "FullSample lists recovered by DecodeFile/DecodeFileSR + GetFullSamples for every trex and nil; "
+                       "distinct = distinct case lines; "
                        "search: %d random segments (1-4 tracks, 1-3 fragments, 0-40 ops, extra boxes, both encoders, optimise on/off, "
                        "both decoders, adversarial trex): added list == recovered list per track" % (n, ns))
 
